@@ -11,6 +11,34 @@ using namespace PointerSystem;
 
 namespace AddressOperationHelpers {
 
+namespace {
+// &a.x / &a.in.x / &a.arr[i]: a が const 構造体なら、そのメンバーも const
+// オブジェクトの一部。ポインタ経由の書き込み (*p = v) は指し先の変数の
+// is_const を検査するが、メンバーごとの is_const は構造体リテラルでの初期化
+// でしか立たない（const P a = mk(); や const P a = b; では立たない）ので、
+// アドレスを取る時点でルート変数の const を指し先に引き継ぐ。
+// lvalue: & のオペランド、target: ポインタが指す変数（メンバー / メンバー配列）
+void inherit_const_from_root_struct(Interpreter &interpreter,
+                                    const ASTNode *lvalue, Variable *target) {
+    const ASTNode *root = lvalue;
+    while (root && (root->node_type == ASTNodeType::AST_MEMBER_ACCESS ||
+                    root->node_type == ASTNodeType::AST_ARRAY_REF)) {
+        root = root->left.get();
+    }
+    if (!root || !target ||
+        (root->node_type != ASTNodeType::AST_VARIABLE &&
+         root->node_type != ASTNodeType::AST_IDENTIFIER)) {
+        return;
+    }
+    Variable *root_var = interpreter.find_variable(root->name);
+    if (root_var && root_var != target && root_var->is_const &&
+        root_var->is_struct && !root_var->is_reference &&
+        root_var->type != TYPE_POINTER) {
+        target->is_const = true;
+    }
+}
+} // namespace
+
 // ========================================================================
 // アドレス演算子 (&) の評価
 // ========================================================================
@@ -154,6 +182,10 @@ int64_t evaluate_address_of(
                     "Invalid array reference in address-of");
             }
         }
+
+        // &a.arr[i]: const 構造体のメンバー配列の要素
+        inherit_const_from_root_struct(interpreter, node->left.get(),
+                                       array_var);
 
         // 配列要素のアドレス取得（1次元・多次元両対応）
         // 要素の型を判定
@@ -318,6 +350,10 @@ int64_t evaluate_address_of(
         if (!member_var) {
             throw std::runtime_error("Undefined member: " + member_path);
         }
+
+        // &a.x: const 構造体のメンバー
+        inherit_const_from_root_struct(interpreter, node->left.get(),
+                                       member_var);
 
         if (debug_mode) {
             std::cerr << "[ADDRESS_OF] member_var found: " << member_var
